@@ -41,6 +41,8 @@ type PanicSpec struct {
 type GhostDecl struct {
 	Name string
 	Type string
+	Def  Expr // optional defining predicate (must be a prelude predicate marked ;@definitional)
+	Src  string
 }
 
 type LetDecl struct {
@@ -63,6 +65,7 @@ type Contract struct {
 	Hints    map[string][]Hint // anchor -> hints
 	Lets     []LetDecl
 	Ghosts   []GhostDecl
+	Decls    []string // "let:<i>" / "ghost:<i>" in source order
 	Trusted  bool // contract assumed, body not verified (externals / out-of-subset): listed in evidence
 	Inline   bool // force inlining at call sites even though a contract exists
 	NoInline bool
@@ -95,7 +98,7 @@ type ContractSet struct {
 
 var reClauseLoop = regexp.MustCompile(`^loop#(\d+)\s+(invariant|decreases|use|assert)\s+(.*)$`)
 var reAt = regexp.MustCompile(`^at\s+(\S+)\s+(use|assert)\s+(.*)$`)
-var rePred = regexp.MustCompile(`^pred\s+([A-Za-z_][A-Za-z0-9_]*)\s*\((.*?)\)\s*:=\s*(.*)$`)
+var rePred = regexp.MustCompile(`^(?:pred|fun)\s+([A-Za-z_][A-Za-z0-9_]*)\s*\((.*?)\)\s*:=\s*(.*)$`)
 
 func clauseKeyword(s string) bool {
 	for _, k := range []string{"property ", "requires ", "ensures ", "modifies ", "no_panic", "panics ", "decreases ", "loop#", "at ", "let ", "ghost ", "trusted", "inline", "noinline", "pure", "witness ", "assumes ", "dispatch "} {
@@ -159,7 +162,7 @@ func (cs *ContractSet) parseFile(pkgPath, file string) error {
 		if t == "" {
 			continue
 		}
-		isStart := strings.HasPrefix(t, "func ") || strings.HasPrefix(t, "pred ") || strings.HasPrefix(t, "end")
+		isStart := strings.HasPrefix(t, "func ") || strings.HasPrefix(t, "pred ") || strings.HasPrefix(t, "fun ") || strings.HasPrefix(t, "end")
 		if !isStart && !clauseKeyword(t) && len(joined) > 0 {
 			joined[len(joined)-1].text += " " + t
 			continue
@@ -186,7 +189,7 @@ func (cs *ContractSet) parseFile(pkgPath, file string) error {
 				return fail(fmt.Errorf("duplicate contract for %s", id))
 			}
 			cs.Funcs[id] = cur
-		case strings.HasPrefix(t, "pred "):
+		case strings.HasPrefix(t, "pred "), strings.HasPrefix(t, "fun "):
 			m := rePred.FindStringSubmatch(t)
 			if m == nil {
 				return fail(fmt.Errorf("bad pred declaration: %s", t))
@@ -305,12 +308,26 @@ func (cs *ContractSet) parseFile(pkgPath, file string) error {
 				return fail(err)
 			}
 			cur.Lets = append(cur.Lets, LetDecl{Name: strings.TrimSpace(sp[0]), E: e, Src: sp[1]})
+			cur.Decls = append(cur.Decls, fmt.Sprintf("let:%d", len(cur.Lets)-1))
 		case strings.HasPrefix(t, "ghost "):
-			sp := strings.SplitN(strings.TrimSpace(t[6:]), " ", 2)
+			rest := strings.TrimSpace(t[6:])
+			var def Expr
+			defSrc := ""
+			if i := strings.Index(rest, ":="); i >= 0 {
+				defSrc = strings.TrimSpace(rest[i+2:])
+				e, err := ParseSpec(defSrc)
+				if err != nil {
+					return fail(err)
+				}
+				def = e
+				rest = strings.TrimSpace(rest[:i])
+			}
+			sp := strings.SplitN(rest, " ", 2)
 			if len(sp) != 2 {
 				return fail(fmt.Errorf("ghost needs name and type"))
 			}
-			cur.Ghosts = append(cur.Ghosts, GhostDecl{Name: sp[0], Type: strings.TrimSpace(sp[1])})
+			cur.Ghosts = append(cur.Ghosts, GhostDecl{Name: sp[0], Type: strings.TrimSpace(sp[1]), Def: def, Src: defSrc})
+			cur.Decls = append(cur.Decls, fmt.Sprintf("ghost:%d", len(cur.Ghosts)-1))
 		case t == "trusted" || strings.HasPrefix(t, "trusted "):
 			cur.Trusted = true
 			if len(t) > 8 {
